@@ -130,6 +130,14 @@ def op_gen_factory(byz):
             # plaintext (ciphertext is just the AEAD tag)
             from tlslite.messages import Message
             rl = conn._recordLayer
+            if op[2] == -2:
+                # a PROTECTED change_cipher_spec (RFC 8446 section 5: MUST be
+                # refused with unexpected_message)
+                def prot_ccs():
+                    body = rl._encryptThenSeal(bytearray([1, 20]), 23)
+                    for r in rl._recordSocket.send(Message(23, body)):
+                        yield r
+                return prot_ccs
             if op[2] < 0:
                 def empty():
                     body = rl._encryptThenSeal(bytearray(0), 23)
@@ -273,8 +281,8 @@ def run(job, streams=None):
             t["mask"] = 1
         else:
             # executed by the sender itself after its first record
-            extra_ops = [S, "byz_inner", [0, -1, 1, 5, 64, -1][
-                ch.draw(6, "t.zeros")]]
+            extra_ops = [S, "byz_inner", [0, -1, 1, 5, 64, -1, -2, -2][
+                ch.draw(8, "t.zeros")]]
             t = None
     if t is not None:
         t["idx"] = tgt
